@@ -116,7 +116,7 @@ def r2_be_bytes(text, log, file, base_line):
 
 
 def r3_for_ref_tuple(text, log, file, base_line):
-    rx = re.compile(r'for\s+&\(([a-z_0-9]+),\s*([a-z_0-9]+)\)\s+in\s+([a-z_0-9]+)(\s[^{]*)?\{')
+    rx = re.compile(r'for\s+&\(([a-z_0-9]+),\s*([a-z_0-9]+)\)\s+in\s+([a-z_0-9]+)(?:(\s.*?)/\*vx-body\*/|(\s*))\{', re.S)
     m = rx.search(text)
     while m:
         a, b, xs = m.group(1), m.group(2), m.group(3)
@@ -298,7 +298,7 @@ class Weaver:
         span = None
         parts = [p.strip() for p in path.split('/')]
         for i, part in enumerate(parts):
-            m = re.match(r'(fn|struct|enum|trait|const|impl)\s+(.*?)(?:\s*#(\d+))?$', part)
+            m = re.match(r'(fn|struct|enum|trait|const|impl|type)\s+(.*?)(?:\s*#(\d+))?$', part)
             if not m:
                 raise ValueError(path)
             kind, name, nth = m.group(1), m.group(2), int(m.group(3) or 0)
@@ -331,14 +331,15 @@ class Weaver:
                 if open_impl:
                     u.add('}\n')
                 if in_impl:
-                    hdr = in_impl
+                    hdr = '\n'.join(l for l in in_impl.split('\n') if not l.strip().startswith(('///', '#[', '//'))).strip()
                     hdr = r5_self_path(hdr, u.rewrites, file, base_line)
                     if it.get('impl_header'):
+                        u.rewrites.append(('R7', file, base_line, f'trait-impl method checked as inherent method: {hdr} -> {it["impl_header"]}'))
                         hdr = it['impl_header']
                     u.add(hdr + ' {\n')
                     key = re.sub(r'^impl(\s*<[^>]*>)?\s+', '', re.sub(r'\s+', ' ', hdr)).strip()
                     for k, v in impl_extra.items():
-                        if k == key:
+                        if k == key or key.startswith(k + ' where') or key.startswith(k + ' {'):
                             u.add(v, tag=f'{u.name}.{key}.spec')
                 open_impl = in_impl
             text = self.weave_item(u, it, src, msk, span, file, base_line, strip_modules)
@@ -346,6 +347,8 @@ class Weaver:
                 text = re.sub(r'\bSelf::', '', text)
                 u.rewrites.append(('R7', file, base_line, f'hoisted {parts[-1]} out of {header}'))
             item_id = it.get('id') or parts[-1].split()[-1]
+            if it.get('attr'):
+                text = it['attr'].strip() + '\n' + text.lstrip('\n')
             u.add(f'// ---- {file}:{base_line} {path}\n' + text, tag=f'{u.name}.{item_id}')
             if parts[-1].startswith('fn'):
                 u.functions.append({'file': file, 'item': path, 'line': base_line, 'backend': 'verus',
@@ -354,8 +357,10 @@ class Weaver:
             u.add('}\n')
         for lf in spec.get('lemma_files', []):
             u.add(f'// ---- lemmas {lf}\n' + open(os.path.join(self.cdir, 'prelude', lf)).read(), tag=f'{u.name}.lemmas:{lf}')
-        if spec.get('lemmas'):
-            u.add('// ---- lemmas\n' + spec['lemmas'], tag=f'{u.name}.lemmas')
+        # `lemmas = ...` written after an [[item]] table lands inside that table in TOML: accept both places
+        for lem in [spec.get('lemmas')] + [it.get('lemmas') for it in spec.get('item', [])]:
+            if lem:
+                u.add('// ---- lemmas\n' + lem, tag=f'{u.name}.lemmas')
         u.add('} // verus!\nfn main() {}\n')
         u.finish()
         return u
@@ -385,7 +390,7 @@ class Weaver:
                 n = lp['n']
                 if n >= len(loops):
                     raise LostAnchor(f'{file}: loop #{n} of {item_id} not found (have {len(loops)})')
-                inserts.append((loops[n][1], '\n' + indent(lp['invariant'].strip(), 8) + '\n    '))
+                inserts.append((loops[n][1], '\n' + indent(lp['invariant'].strip(), 8) + '\n    /*vx-body*/'))
                 u.clauses.append(f'{u.name}.{item_id}.loop{n}')
             if it.get('loops_expected') is not None and len(loops) != it['loops_expected']:
                 raise LostAnchor(f'{file}: {item_id} has {len(loops)} loops, contracts expect {it["loops_expected"]}')
